@@ -491,6 +491,7 @@ def step (s : DState) (line : String) : DState × String :=
     | none => plain s "bad-op"
   | "tls" :: rest => (s, tlsLine rest)
   | "tlsrude" :: _ => (s, "refused clear=0 conns=1 | refused | -")   -- a failed handshake is a refusal, whatever `verify` says
+  | ["amode", _] => plain s "."                -- how the application waits for its futures is invisible to the model
   | ["rmode", _] => plain s "."                -- how the reader hands out the octets is invisible to the model
   | ["cliswitch", _] => plain s "first=err reader1_stopped=1"
   | ["tlsq", cells] =>
@@ -498,6 +499,9 @@ def step (s : DState) (line : String) : DState × String :=
     let parts := (cells.splitOn ";").map fun c => (tlsLine (c.splitOn ",")).splitOn " | "
     (s, String.intercalate " ; " (parts.map fun p => p.getD 0 "") ++ " | " ++
         String.intercalate ";" (parts.map fun p => p.getD 1 "") ++ " | -")
+  | "lsnpipe" :: rest =>
+    -- n pipelined requests, then one on which the handler fails: `serve` writes the n answers, then stops (C08_handler_fails)
+    plain s ("answers=" ++ ((kvOf rest "n").getD "0") ++ " end=eof")
   | "lsn" :: rest => (s, lsnLine rest)
   | "ctcp" :: rest => (s, ctcpLine rest)
   | ["ctrace", evs, answers] => (s, ctraceLine evs answers)
@@ -517,6 +521,8 @@ def step (s : DState) (line : String) : DState × String :=
     let hres : Option (List HRes) :=
       if hs = "-" then some [] else
       (hs.splitOn ",").mapM fun t =>
+        -- (`~<ms>` / `~y<k>` behind a result: how long the handler's future takes is invisible to the model)
+        let t := (t.splitOn "~").headD t
         if t = "err" then some HRes.err
         else if t.startsWith "a" then (t.drop 1).toString.toNat?.bind fun i => s.saved[i]?.map HRes.ok else none
     match hres, parseREvs rd, parseWEvs wr with
